@@ -101,7 +101,7 @@ def normalize_first(ctx, rule):
     return pl
 
 
-def sibling_agreement(ctx, rule_b, rule_c, stages_too=True):
+def sibling_agreement(ctx, rule_b, rule_c, stages_too=True, only=None):
     pl = pipelines(ctx, rule_b)
     if "query" not in pl or "record" not in pl:
         return
@@ -118,6 +118,16 @@ def sibling_agreement(ctx, rule_b, rule_c, stages_too=True):
             ctx.fail(rule_b, key, "-", "stage %s missing in one tokeniser" % stage)
             continue
         (pq, bq), (pr, br) = d["query"], d["record"]
+        if only is not None:
+            want = {"split": {"Whitespace", "Control", "Punctuation"}, "strip": {"NotAlphaNum"}}[stage]
+            for nm in only:
+                p_, b_ = d[nm]
+                k2 = "classes:%s:%s" % (stage, nm)
+                if p_ is not None and set(p_) == want:
+                    ctx.ok(rule_c, k2, b_.where(), "%s %ss on exactly %s" % (nm, stage, sorted(want)))
+                else:
+                    ctx.fail(rule_c, k2, b_.where(), "%s tokeniser %ss on %s, expected %s" % (nm, stage, p_, sorted(want)))
+            continue
         if pq is None or pr is None:
             ctx.fail(rule_b, key, bq.where(), "%s pattern is not a constant class list (fail closed)" % stage)
             continue
